@@ -1238,3 +1238,4 @@ EXPLANATION += (' Round 6: ' + "DUP/identity-includes-time (the membership key o
 EXPLANATION += (' Round 7: ' + 'HARMONY/accidental-spelling (five alterations folded path-wise); TEMPO/independent-of-dynamics; KEY/transposed-sounding-key (all (fifths, chromatic) pairs folded; finding F32); STATE/running-tempo-per-part and STATE/running-tempo-after-backup (known findings F30, F31).')
 EXPLANATION += (' Rounds 9-10: ' + 'REPAIR/only-a-measure-without-notes; TEMPO/default-only-without-marks (guard exact vs. one disjunct of a wider or).')
 EXPLANATION += (' Round 11: ' + 'FIG/bass located when a condition on the root guards the bass; METER/complete-bar-keeps-the-meter (_fix_time_signature on seven scenarios).')
+EXPLANATION += (' Round 12: ' + 'PITFALL/case-folded-key over musicxml_parser (class-level tables included).')
